@@ -276,6 +276,18 @@ func propC16(c *ctx) error {
 			}()
 			fresh := implRender(&rc2, -1)
 			res.S3Checked++
+			// the same valuation through tpl.RenderToBytes / RenderToString: as a history of their own (earlier results are
+			// looked at again after later calls; failing renders of another template in between)
+			if s%2 == 0 && !bad {
+				mk := func() any { d, _, _ := rc2.goData(&callLog{}); return d }
+				if why := entryPointHistory(shared, nil, fresh.text(), fresh.St != "ok", mk, 2, s%4 == 0); why != "" {
+					cj := rc2.toJ()
+					cj["history"] = hist
+					res.violate(cj, J{"fresh": trunc(fresh.text(), 300), "st": fresh.St}, why, "RenderToBytes / RenderToString on a reused template object differ from a fresh execution with the same data")
+					bad = true
+				}
+				res.count("entry_point_histories")
+			}
 			if (errS != nil) != (fresh.St != "ok") || strings.Join(w.chunks, "") != fresh.text() || strings.Join(log2.calls, ",") != strings.Join(fresh.Log, ",") {
 				cj := rc2.toJ()
 				cj["history"] = hist
